@@ -118,15 +118,37 @@ func (muxer *Muxer) process() {
 			continue
 		}
 
-		if !packSequenceHeader{
-			muxer.muxMetadataTag()
-			muxer.vp.PacketizeSequenceHeader()
-			muxer.ap.PacketizeSequenceHeader()
+		if !packSequenceHeader {
+			// 视频参数集尚未就绪（SDP 未携带、还没有从码流中得到）：丢弃该帧，下一帧再试
+			if !muxer.packetizeSequenceHeaders() {
+				continue
+			}
 			packSequenceHeader = true
 		}
-		
+
+
 		muxer.packetize(f.(*codec.Frame))
 	}
+}
+
+// packetizeSequenceHeaders 输出 metadata 和音视频序列头；参数集未就绪或序列头生成失败时返回 false
+func (muxer *Muxer) packetizeSequenceHeaders() (ok bool) {
+	vm := muxer.videoMeta
+	if len(vm.Sps) < 4 || len(vm.Pps) == 0 || (vm.Codec == "H265" && len(vm.Vps) == 0) {
+		return false
+	}
+
+	defer func() {
+		if r := recover(); r != nil {
+			muxer.logger.Errorf("flvmuxer: sequence header failed; r = %v", r)
+			ok = false
+		}
+	}()
+
+	muxer.muxMetadataTag()
+	muxer.vp.PacketizeSequenceHeader()
+	muxer.ap.PacketizeSequenceHeader()
+	return true
 }
 
 // packetize 处理一帧；畸形帧引起的 panic 只丢弃这一帧，转换协程继续处理后续的帧
